@@ -18,7 +18,7 @@ func init() {
 			"inside the saver every map change and the file write are dominated by 'id not in the ban set' and by 'not (known and identical)' (an identical resubmission changes nothing), and every map change by a successful append of the record to the file; " +
 			"the conflict branch deletes exactly key ea.ShortID from the three id-keyed maps (KEYSET), deletes the index entry of the STORED record's public key (INVERSE: key derived from equipment[id], not from the request), and adds the id to the ban set; the insert branch adds the four entries for one id with index key = the record's own public key; " +
 			"the loader applies the same case analysis (banned => skip, identical => skip, new => same four insertions, conflict => same four deletions + ban) after verifying every record under the GCA key. " +
-			"The three relations asserted by the server's own CheckInvariants follow from KEYSET + INVERSE. NOT decided: uniqueness of public keys across ids (a policy the code does not enforce; noted), JSON float transport (C15), behaviour over histories as such.",
+			"The three relations asserted by the server's own CheckInvariants follow from KEYSET + INVERSE. COVER EquipmentAuthorization.SigningBytes covers every field except Signature and cuts exactly the 64 trailing signature bytes off the serialization. NOT decided: uniqueness of public keys across ids (a policy the code does not enforce; noted), JSON float transport (C15), behaviour over histories as such.",
 		Assumptions: append([]string{"glow.Verify is sound (trusted)", "the authorization file is written by this server only (README: disk data is trusted)"}, baseAssumptions...),
 		Run:         runC06,
 	})
@@ -71,7 +71,7 @@ func runC06(c *an.Ctx) {
 		}
 	}
 	c.Count("WHO-MAY", nOps)
-	c.Floor("WHO-MAY", 16)
+	c.Floor("WHO-MAY", 8)
 	if saver == nil || loader == nil {
 		c.Undecided("ANCHOR", nil, 0, "saver/loader", "authorization saver or loader not found", "anchor missing")
 		return
